@@ -281,6 +281,7 @@ class State:
         self.sasview = {}
         self.direct = {}
         self.arrays = {}
+        self.reuse_buffers = False
 
     def model(self, name):
         from sasmodels import core as sascore
@@ -294,7 +295,15 @@ class State:
         key = (name, json.dumps(q))
         if key not in self.kernels:
             qv = [np.array(q, float)] if not isinstance(q[0], (list, tuple)) else [np.array(q[0], float), np.array(q[1], float)]
-            self.kernels[key] = (self.model(name).make_kernel(qv), qv)
+            # the kernel is made from the caller's own buffers, which the caller then reuses for something else:
+            # the kernel stays bound to the q values it was made for
+            buffers = [a.copy() for a in qv]
+            kernel = self.model(name).make_kernel(buffers)
+            if self.reuse_buffers:              # (not in the fresh-process oracle)
+                for b in buffers:
+                    b *= 1.7
+                    b += 0.013
+            self.kernels[key] = (kernel, qv)
         return self.kernels[key]
 
 
@@ -491,6 +500,7 @@ def gen_history(rng, reqs, h):
             ["eval", "sphere/sasview3b"], ["eval", "sphere/Fq"], ["eval", "sphere/Fq0"],
             ["eval", "cylinder/Fq3pd"], ["eval", "cylinder/Fq0pd"], ["eval", "cylinder/Fq1"], ["eval", "cylinder/Fq0"],
             ["eval", "hc/Fq2"], ["eval", "hc/Fq0"], ["eval", "py/Fq1"], ["eval", "py/Fq"]]
+    ops += [["other_size", "cylinder"], ["eval", "cylinder/mono3"], ["eval", "cylinder/pd9"], ["eval", "cylinder/sasview-mono"]]
     # a request, an empty-mesh request, and the first request again on one kernel object (python and compiled)
     ops += [["eval", "py/pd"], ["eval", "py/empty"], ["eval", "py/pd"], ["eval", "py/mono"], ["eval", "py/empty"],
             ["eval", "py/mono"], ["eval", "sphere/pd35"], ["eval", "sphere/empty"], ["eval", "sphere/pd35"],
@@ -521,6 +531,7 @@ def run_history(case, rec):
     rng = core.rng_for(case["seed"], PROP, "hist", case["h"])
     ops = gen_history(rng, reqs, case["h"])
     st = State()
+    st.reuse_buffers = True
     evaluated, shared = [], 0
     after_release = False
     prev = None
@@ -620,6 +631,19 @@ def run_history(case, rec):
                 st.direct.pop(key)
             st.models.pop(arg, None)
             st.model(arg)
+            after_release = True
+        elif op == "other_size":
+            # someone in this process evaluates the model with another integration size (compare's -ngauss option)
+            from sasmodels import core as sascore, generate, direct_model
+            info_ = sascore.load_model_info(arg)
+            generate.set_integration_size(info_, 20)
+            m_ = sascore.build_model(info_, dtype="double", platform="dll")
+            direct_model.call_kernel(m_.make_kernel([np.array([0.02, 0.2])]), {})
+            for key in [k for k in st.kernels if k[0] == arg]:
+                st.kernels.pop(key)
+            st.models.pop(arg, None)
+            st.direct = {k: v for k, v in st.direct.items() if k[0] != arg}
+            st.sasview.pop(arg, None)
             after_release = True
         elif op == "clone":
             req = reqs[arg]
